@@ -27,7 +27,8 @@ impl VRepo {
             forall|x: u64| old(w).ids@.contains(x) ==> final(w).ids@.contains(x),
     { unimplemented!() }
 }
-pub struct PackCheckerD { pub _opaque: u64 }
+// packs_to_read: the packs queued so far (index/size mismatch or read-all); into_pack_to_read ADDS the listed packs no index mentions
+pub struct PackCheckerD { pub packs_to_read: Vec<(PackIdD, Option<u32>, u32)> }
 impl PackCheckerD {
     // lists the pack files (read only)
     #[verifier::external_body]
